@@ -252,6 +252,12 @@ func lineKeyDXFInput(l *sdf.Line2) string {
 	return numKey(l[0].X) + "," + numKey(l[0].Y) + ";" + numKey(l[1].X) + "," + numKey(l[1].Y)
 }
 
+// the same at the 16 decimal places the DXF writer emits
+func lineKeyDXFInput16(l *sdf.Line2) string {
+	r := func(v float64) string { return numKey(roundDec(v, 16, 64)) }
+	return r(l[0].X) + "," + r(l[0].Y) + ";" + r(l[1].X) + "," + r(l[1].Y)
+}
+
 func lineKeyDXFOut(l *dxfLine) string {
 	return numKey(l.X1) + "," + numKey(l.Y1) + ";" + numKey(l.X2) + "," + numKey(l.Y2)
 }
